@@ -164,6 +164,10 @@ Proof.
   rewrite IH. rewrite (IH [g p]). rewrite <- app_assoc. reflexivity.
 Qed.
 
+(* (T) in visitors.Id the accessibility check stands after the forcesymbol / lookup branches *)
+Lemma gen_forced_checked : gen_upvalue_check_covers_forced_symbols = true.
+Proof. reflexivity. Qed.
+
 Lemma accessible_visible : forall ch y, accessible ch y = visible_ok (up_fun_id ch) y.
 Proof. reflexivity. Qed.
 
@@ -180,6 +184,15 @@ Proof.
     rewrite <- accessible_visible. destruct (accessible ch y); [|discriminate]. simpl in *.
     destruct (sar y); [discriminate|]. destruct (sq y); try discriminate. reflexivity.
   - (* Use *) intros x ch id Hne H. cbn [aname_stmt rname_stmt] in *. unfold id_errs in H.
+    rewrite chain_lookup_flat in H. destruct (lookup x (flat ch)) as [y|]; [|discriminate].
+    rewrite <- accessible_visible. simpl in H. destruct (accessible ch y); [reflexivity | discriminate].
+  - (* AssignF *) intros x ch id Hne H. cbn [aname_stmt rname_stmt] in *. unfold forced_errs in H.
+    rewrite gen_forced_checked in H.
+    rewrite chain_lookup_flat in H. destruct (lookup x (flat ch)) as [y|]; [|discriminate].
+    rewrite <- accessible_visible. destruct (accessible ch y); [|discriminate]. simpl in *.
+    destruct (sar y); [discriminate|]. destruct (sq y); try discriminate. reflexivity.
+  - (* UseF *) intros x ch id Hne H. cbn [aname_stmt rname_stmt] in *. unfold forced_errs in H.
+    rewrite gen_forced_checked in H.
     rewrite chain_lookup_flat in H. destruct (lookup x (flat ch)) as [y|]; [|discriminate].
     rewrite <- accessible_visible. simpl in H. destruct (accessible ch y); [reflexivity | discriminate].
   - (* Func *) intros f ps b IH ch id Hne H. cbn [aname_stmt rname_stmt] in *.
@@ -436,6 +449,15 @@ Proof.
     apply andb_true_iff in H as [H1 H2]. rewrite accessible_visible, H1. simpl.
     destruct (sar y); [discriminate|]. destruct (sq y); try discriminate. reflexivity.
   - (* Use *) intros x ch id Hne H. cbn [aname_stmt rname_stmt] in *. unfold id_errs.
+    rewrite chain_lookup_flat. destruct (lookup x (flat ch)) as [y|]; [|discriminate].
+    rewrite accessible_visible, H. reflexivity.
+  - (* AssignF *) intros x ch id Hne H. cbn [aname_stmt rname_stmt] in *. unfold forced_errs.
+    rewrite gen_forced_checked.
+    rewrite chain_lookup_flat. destruct (lookup x (flat ch)) as [y|]; [|discriminate].
+    apply andb_true_iff in H as [H1 H2]. rewrite accessible_visible, H1. simpl.
+    destruct (sar y); [discriminate|]. destruct (sq y); try discriminate. reflexivity.
+  - (* UseF *) intros x ch id Hne H. cbn [aname_stmt rname_stmt] in *. unfold forced_errs.
+    rewrite gen_forced_checked.
     rewrite chain_lookup_flat. destruct (lookup x (flat ch)) as [y|]; [|discriminate].
     rewrite accessible_visible, H. reflexivity.
   - (* Func *) intros f ps b IH ch id Hne H. cbn [aname_stmt rname_stmt] in *.
